@@ -729,11 +729,21 @@ def classify(case, mo):
     return tags
 
 
-def need(b, t):
-    """Lemmas/CsvLines.lean `need`: number of doublings after which b exceeds t"""
+def _larger_factor():
+    """`larger_factor` of the driver as tools/translate_csv.py regenerated it (Gen/CsvConstants.lean)"""
+    import re
+    from checks import lib
+    m = re.search(r"def LARGER_FACTOR : Nat := (\d+)", (lib.LEAN / "Exetera" / "Gen" / "CsvConstants.lean").read_text())
+    return int(m.group(1)) if m else 2
+
+
+def need(b, t, _f=[]):
+    """Lemmas/CsvLines.lean `need`: number of regrowths (multiplications by larger_factor) after which b exceeds t"""
+    if not _f:
+        _f.append(max(2, _larger_factor()))
     n = 0
     while 0 < b <= t:
-        b, n = 2 * b, n + 1
+        b, n = _f[0] * b, n + 1
     return n
 
 
